@@ -482,6 +482,58 @@ def reentrant_sample(ctx, n):
                 pass
 
 
+PRUNE_KINDS = ("union", "zip", "combine_latest", "zip_latest")
+
+
+def prune_cases(ctx, cases=None):
+    """node.destroy(streams=<selection>) cuts exactly the selected incoming edges - an empty selection (list or tuple: e.g. a computed
+    'stale inputs' that found none) cuts nothing.  Each case runs the same emissions through a twin pipeline in which the selected
+    edges are removed one by one with disconnect() (whose behaviour the main family checks against the model): the sinks must agree,
+    i.e. delivery follows the edges the pipeline has after the call."""
+    from streamz import Stream
+    if cases is None:
+        cases = []
+        for kind in PRUNE_KINDS:
+            for sel, form in (([], "list"), ([], "tuple"), ([1], "list"), ([0], "tuple"), ([0, 2], "list"), ([2], "list")):
+                for warm in (0, 2):
+                    cases.append({"prune": kind, "sel": sel, "form": form, "warm": warm})
+    for case in cases:
+        kind, sel, warm = case["prune"], case["sel"], case["warm"]
+
+        def build():
+            srcs = [Stream() for _ in range(3)]
+            node = getattr(srcs[0], kind)(srcs[1], srcs[2])
+            return srcs, node, node.sink_to_list()
+
+        def feed(srcs, lo, n):
+            errs = []
+            for v in range(lo, lo + n):
+                for j, s_ in enumerate(srcs):
+                    try:
+                        s_.emit(10 * v + j)
+                    except Exception as e:  # noqa: BLE001
+                        errs.append(type(e).__name__)
+            return errs
+        (sa, na, la), (sb, nb, lb) = build(), build()
+        ea, eb = feed(sa, 1, warm), feed(sb, 1, warm)
+        sel_a = [sa[j] for j in sel]
+        try:
+            na.destroy(streams=sel_a if case["form"] == "list" else tuple(sel_a))
+        except Exception as e:  # noqa: BLE001
+            ea.append("destroy:" + type(e).__name__)
+        for j in sel:
+            sb[j].disconnect(nb)
+        ea += feed(sa, 5, 3)
+        eb += feed(sb, 5, 3)
+        ctx.case(case, nontrivial=True)
+        ctx.count("prune:%s:%d-of-3" % (kind, len(sel)))
+        if la != lb or ea != eb:
+            ctx.failure("prune-selection:" + kind, "%s over three sources, %d rounds of data, then destroy(streams=%s of inputs %r), then three more rounds: "
+                        "the sink received %r (errors %r); with the same edges removed by disconnect() it receives %r (errors %r)"
+                        % (kind, warm, case["form"], sel, la, ea, lb, eb), case,
+                        oracle="after an edit, delivery follows exactly the edges the pipeline currently has")
+
+
 def rewire_scenarios(thorough):
     """source -> A -> consumer with an awaitable: two elements, then A is detached from the source while it holds / delivers them,
     0-3 completions or ticks happen while it is detached, A is re-attached and two more elements follow."""
@@ -532,6 +584,7 @@ ASYNC_SIGS = ("delivery-lost", "delivery-duplicated", "delivery-reordered-or-alt
 def run(ctx):
     ctx.audit()
     reentrant_sample(ctx, 40 if not ctx.thorough() else 800)
+    prune_cases(ctx)
     n = 300 if not ctx.thorough() else 6000
     batch = []
     for c in CORPUS:
@@ -576,6 +629,10 @@ def replay(ctx, data):
     if case.get("reentrant"):
         reentrant_sample(ctx, 40)
         ctx.coverage["rule"] = "replay: re-entrant edit sample"
+        return
+    if case.get("prune"):
+        prune_cases(ctx, [case])
+        ctx.coverage["rule"] = "replay of one recorded case"
         return
     if case.get("mode") == "async" and any(n["kind"] in ASYNC_KINDS + ["zipmax"] for n in case["nodes"]):
         from .. import asynccheck as ac
